@@ -256,7 +256,6 @@ def StepSame (c : Cur) : Step → Prop
 
 theorem mergeTrailers_uri (E : Env) (m m' : Msg) (ts : Headers.Coll) (h : mergeTrailers E m ts = .ok m') : m'.uri = m.uri := by
   unfold mergeTrailers at h
-  simp only at h
   split at h
   · cases h
   · split at h
